@@ -12,6 +12,7 @@ RULE = ("grammar: atoms {x, y, beta_2, 2, -1, 0, 1, 1/3, -3/2, Float(0.5), I}; u
         "at every position of every depth-<=1 context must not come back as something else; natural keys: ALL names of length <= 5 over {a,b,_,0,1,2,9} against an "
         "independent scanner. non-trivial = tree containing a symbol and at least one operation")
 RULE += ' An unsupported node still present in the expression (as sympy holds it) must be refused whatever value comes back.'
+RULE += ' Round 5: integers beyond 2^53 must round-trip exactly (rationals by value); 600-1200 refused translations interleaved with supported ones in one process.'
 ASSUMPTIONS = ["trees whose own value is nan/infinite at an assignment are skipped there (counted)", "relative tolerance 1e-9 on values"]
 BOUNDS = {"quick": {"depth": 2, "names_len": 4}, "thorough": {"depth": 3, "names_len": 5}}
 X, Y, B2 = sympy.symbols("x y beta_2")
